@@ -159,14 +159,21 @@ pub fn run(seed: u64, shard: u64, nshards: u64, cases: u64, bias: &str, parallel
                 // every third history is a directed one (see `e1::scripted_case`)
                 let scripted = only_case.is_none() && !bias.starts_with("script:") && id % 3 == 0;
                 let b = if scripted { format!("script:{}", crate::e1::SCRIPT_KINDS[((id / 3) % crate::e1::SCRIPT_KINDS.len() as u64) as usize]) } else { bias.to_string() };
-                let mut case = Case::new(seed, id, &b, &dir);
-                // shorter histories than E1: every step costs real round trips
-                let _ = &mut case;
-                if memcheck {
-                    // a memory checker slows teosd down ~25x: short histories
-                    case.max_steps = case.max_steps.min(40);
-                }
-                let (stats, output) = run_case_remote_wrapped(&mut case, &dir, false, &wrapper);
+                // a history whose teosd lost a listening port to a concurrent process is simply run again
+                let mut attempt = 0;
+                let (case, stats, output) = loop {
+                    attempt += 1;
+                    let mut case = Case::new(seed, id, &b, &dir);
+                    if memcheck {
+                        // a memory checker slows teosd down ~25x: short histories
+                        case.max_steps = case.max_steps.min(40);
+                    }
+                    let (stats, output) = run_case_remote_wrapped(&mut case, &dir, false, &wrapper);
+                    let port_clash = stats.inconclusive.as_deref().map_or(false, |w| w.contains("listening port"));
+                    if !port_clash || attempt >= 3 {
+                        break (case, stats, output);
+                    }
+                };
                 results.lock().unwrap().push((id, case, stats, output));
             });
         }
